@@ -40,7 +40,7 @@ def plan(ctx):
         obs.append(l2_ob(be, k, m, hd, avail_orders(n, (), "rot"), ln=unit + 1, ct=2, force=1, tag="l2force"))
         obs.append(l2_ob(be, k, m, hd, avail_orders(n, emax, "rev"), ln=unit + 1, ct=2, force=0, tag="l2ct2"))
     # ---- L1: back-end ops for larger shapes (split oracle above k=2)
-    l1_shapes = [(RS, 3, 2, 2), (RS, 4, 2, 2), (ISAV, 3, 2, 2)] + ([(RS, 5, 3, 3), (ISAV, 4, 2, 2), (ISAC, 4, 3, 3), (RS, 6, 3, 3), (RS, 8, 4, 4), (RS, 10, 4, 4), (ISAV, 6, 3, 3), (ISAV, 10, 4, 4), (ISAC, 8, 4, 4)] if thorough else [])
+    l1_shapes = [(RS, 3, 2, 2), (RS, 4, 2, 2)] + ([(ISAV, 3, 2, 2), (RS, 5, 3, 3), (ISAV, 4, 2, 2), (ISAC, 4, 3, 3), (RS, 6, 3, 3), (RS, 8, 4, 4), (RS, 10, 4, 4), (ISAV, 6, 3, 3), (ISAV, 10, 4, 4), (ISAC, 8, 4, 4)] if thorough else [])
     for be, k, m, hd in l1_shapes:
         n = k + m
         if thorough:
@@ -49,13 +49,13 @@ def plan(ctx):
                 sets = [s for s in sets if len(s) == 1] + rnd.sample([s for s in sets if len(s) > 1], 100)
         else:
             # every set of one or two erasures + two sampled sets of maximal size (each set costs a decode plus one reconstruct per erased index)
-            sets = list(esets(n, 1, min(m, 2)))
+            sets = list(esets(n, 1, 1)) + rnd.sample(list(esets(n, 2, 2)), 4)     # every single erasure + 4 sampled pairs (the exhaustive k-subset sweep of these shapes is C04 mds-*)
             if m > 2:
                 sets += rnd.sample(list(esets(n, m, m)), min(2, len(list(esets(n, m, m)))))
         for i, ch in enumerate(chunks(sets, 1)):
             obs.append(be_l1_ob(be, k, m, hd, ch, idx=i, timeout=1500, mem=(12 if k >= 8 else 4)))
     if not thorough:
-        obs.append(be_l1_ob(RS, 10, 4, 4, [(0, 11), (13,)], idx=0, timeout=1500, mem=16))
+        obs.append(be_l1_ob(RS, 10, 4, 4, [(13,)], idx=0, timeout=1500, mem=16))
     # ---- L1: flat-XOR through the adapter ops (table sweep itself is C05)
     for (k, m, hd) in ([(3, 3, 3), (5, 5, 4)] if not thorough else TABLES[::4]):
         n = k + m
